@@ -60,7 +60,26 @@ def mk_cfg(interference=False):
         label = str(f.info.get("label", ""))
         if label.endswith(".writeto"):
             ow = kwargs.get("overwrite", VBool(False))
-            FSM.write(ex, args[0], FSM.content_of(ex.st.fresh_int("hdu")), "truncate" if ex.truth(ow) is True else "exclusive")
+            # astropy: an HDU built from (data[, header]) holds that data (scaling cards of the given header are reconciled with the data,
+            # exactly as fits.writeto does); cards MERGED into hdu.header afterwards (update / extend(update=True) / BSCALE, BZERO, BLANK set by
+            # hand) are written verbatim and change what a reader gets back: the file content is then NOT known to be the data
+            hdu = f.info.get("of")
+            content = FSM.content_of(ex.st.fresh_int("hdu"))
+            if isinstance(hdu, VOpaque) and str(hdu.info.get("label", "")).endswith("PrimaryHDU()"):
+                a, k = hdu.info.get("args") or [], hdu.info.get("kwargs") or {}
+                d = k.get("data", a[0] if a else None)
+                merged = False
+                for ev in ex.st.events:
+                    if ev[0] == "xr_call" and isinstance(ev[4], VOpaque) and isinstance(ev[4].info.get("of"), VOpaque) and ev[4].info["of"].info.get("of") is hdu \
+                            and ev[4].info["of"].info.get("attr") == "header" and ev[4].info.get("attr") in ("update", "extend", "set", "append", "insert", "fromstring"):
+                        merged = True
+                    if ev[0] == "xr_setitem" and isinstance(ev[4], VOpaque) and ev[4].info.get("of") is hdu and ev[4].info.get("attr") == "header":
+                        key = ev[2]
+                        if not (isinstance(key, VStr) and isinstance(key.v, str) and key.v.upper() not in ("BSCALE", "BZERO", "BLANK", "BITPIX", "BUNIT") and not key.v.upper().startswith("NAXIS")):
+                            merged = True
+                if d is not None and not merged:
+                    content = data_id(ex, d)
+            FSM.write(ex, args[0] if args else kwargs.get("fileobj", kwargs.get("name")), content, "truncate" if ex.truth(ow) is True else "exclusive")
             return NONE
         if label.endswith(".save") or label.endswith(".to_csv"):
             FSM.write(ex, args[0], FSM.content_of(ex.st.fresh_int("img")), "truncate")
@@ -205,6 +224,36 @@ LOW_WRITERS = ["write_to_fits", "write_to_npy", "write_to_jpg"]
 METHOD_WRITERS = [("save_to_fits", True), ("save_to_npy", True), ("save_to_txt", True), ("save_to_csv", False), ("save_to_png", True), ("save_to_jpeg", True), ("save_to_jpg", True)]
 
 
+LOSSLESS = ("to_fits", "to_npy")
+
+HEADER_REPLAY = lambda w: {"code": """
+import numpy as np, tempfile, pathlib
+from astropy.io import fits
+import pyxel.outputs.utils as U
+d = pathlib.Path(tempfile.mkdtemp())
+VIOLATED, DETAIL = False, 'every FITS / npy file read back bit-identically, whatever cards the propagated header carries'
+rng = np.random.default_rng(2)
+headers = {'none': None, 'plain': fits.Header({'OBSERVER': 'x', 'EXPTIME': 3.5}), 'raw uint16 frame': fits.Header({'BZERO': 32768, 'BSCALE': 1, 'OBSERVER': 'x'}),
+           'scaled': fits.Header({'BSCALE': 0.5, 'BZERO': 10.0}), 'blank': fits.Header({'BLANK': -1, 'BUNIT': 'adu'})}
+arrays = {'float64': rng.normal(size=(3, 4)) * 1e3, 'uint16': rng.integers(0, 65535, size=(3, 4)).astype(np.uint16), 'float32': rng.normal(size=(2, 2)).astype(np.float32), 'uint32': rng.integers(0, 2**32 - 1, size=(2, 3)).astype(np.uint32)}
+for hn, h in headers.items():
+    for an, a in arrays.items():
+        f = d / f'{hn.replace(" ", "_")}_{an}.fits'
+        keep = None if h is None else h.copy()
+        U.write_to_fits(filename=f, data=a, header=keep, overwrite=False)
+        back = fits.getdata(f)
+        if back.dtype.newbyteorder('=') != a.dtype or not np.array_equal(back, a):
+            VIOLATED, DETAIL = True, f'write_to_fits with a {hn!r} header: {an} array {a.ravel()[:3]} reads back as {np.asarray(back).dtype} {np.asarray(back).ravel()[:3]}'; break
+    if VIOLATED: break
+if not VIOLATED:
+    a = arrays['float64']
+    f = d / 'x.npy'
+    U.write_to_npy(filename=f, data=a, overwrite=False)
+    if not np.array_equal(np.load(f), a): VIOLATED, DETAIL = True, 'write_to_npy: file differs from the array'
+""", "expect": "FITS files hold exactly the given array (read back bit-identically) for every propagated header, including those carrying BZERO/BSCALE/BLANK cards",
+    "bound": "5 headers x the bucket dtypes float64, float32, uint16, uint32", "function": "pyxel/outputs/utils.py::write_to_fits"}
+
+
 def check_writes(u, p, tag, rp):
     # the data handed to a writer is the detector's own bucket (save_to_files passes np.asarray(bucket)): the writer must leave it as it is
     d = getattr(p.ex, "data", None)
@@ -250,6 +299,8 @@ def write_unit(u: Unit):
                     ok = len(ws) == 1 and isinstance(p.value, VOpaque) and p.value.kind == "path"
                     u.oblige(p, f"write.writes_data[{name},auto={auto}]", z3.And(zb(ok), (FSM.path_text(p.value) == ws[0][1]) if ok else z3.BoolVal(False),
                                                                                 z3.Select(p.st.ghost["FS"], ws[0][1]) == ws[0][4] if ok else z3.BoolVal(False)), {}, WRITE_REPLAY)
+                    if name in LOSSLESS and ok:
+                        u.oblige(p, f"write.file_holds_the_given_array[{name},auto={auto}]", ws[0][4] == FSM.content_of(z3.IntVal(p.ex.data.addr)), {}, HEADER_REPLAY)
             u.static(f"write.cover[{name},auto={auto}]", n_ret >= 1, fi.qualname, f"{n_ret} normal paths")
     # the writer METHODS of Outputs (public, deprecated in favour of the functions above, still complete writers of their own)
     oci = u.cls(f"{OO}::Outputs")
@@ -279,22 +330,30 @@ def write_unit(u: Unit):
                     ok = len(ws) == 1 and isinstance(p.value, VOpaque) and p.value.kind == "path"
                     u.oblige(p, f"write.writes_data[Outputs.{name},auto={auto}]", z3.And(zb(ok), (FSM.path_text(p.value) == ws[0][1]) if ok else z3.BoolVal(False),
                                                                                         z3.Select(p.st.ghost["FS"], ws[0][1]) == ws[0][4] if ok else z3.BoolVal(False)), {}, WRITE_REPLAY)
+                    if name.replace("save_", "") in LOSSLESS and ok:
+                        u.oblige(p, f"write.file_holds_the_given_array[Outputs.{name},auto={auto}]", ws[0][4] == FSM.content_of(z3.IntVal(p.ex.data.addr)), {}, HEADER_REPLAY)
             u.cover(f"write.cover[Outputs.{name},auto={auto}]", ps, lambda p: p.kind == "return")
     for name in LOW_WRITERS:
         fi = u.fn(f"{OU}::{name}")
         cfg = mk_cfg()
-        for overwrite in (False,):
-            def setup(ex, name=name):
+        for hdr in ((False, True) if name == "write_to_fits" else (False,)):
+            def setup(ex, name=name, hdr=hdr):
                 data = ex.st.alloc(HArr((z3.Int("dr"), z3.Int("dc")), VDtype("float64"), lambda ix: VFloat(z3.RealVal(1))))
                 ex.data, ex.data_elem = data, ex.st.cell(data)._elem
                 kw = {"filename": FSM.mk_path(ex, z3.String("filename")), "data": data, "overwrite": VBool(False)}
                 if name == "write_to_fits":
-                    kw["header"] = NONE
+                    # the caller's header (detector.header: ANY cards, those of a loaded raw frame included)
+                    kw["header"] = VOpaque("xr", ex.st.fresh_int("hdr"), {"label": "caller_header"}) if hdr else NONE
                 return [], kw
-            ps = u.paths(fi, setup, cfg, label=name)
+            tag = f"{name},header={hdr}" if name == "write_to_fits" else name
+            ps = u.paths(fi, setup, cfg, label=tag)
             for p in ps:
-                check_writes(u, p, f"{name},{p.kind}", WRITE_REPLAY)
-            u.cover(f"write.cover[{name}]", ps, lambda p: p.kind == "return")
+                check_writes(u, p, f"{tag},{p.kind}", WRITE_REPLAY)
+                if p.kind == "return" and name in ("write_to_fits", "write_to_npy"):
+                    ws = [e for e in p.st.events if e[0] == "write"]
+                    if ws:      # (no write at all: the file was already there and is left alone -- write.no_clobber)
+                        u.oblige(p, f"write.file_holds_the_given_array[{tag}]", z3.And(zb(len(ws) == 1), ws[0][4] == FSM.content_of(z3.IntVal(p.ex.data.addr))), {}, HEADER_REPLAY)
+            u.cover(f"write.cover[{tag}]", ps, lambda p: p.kind == "return")
 
 
 NAMES_REPLAY = lambda w: {"code": """
